@@ -123,6 +123,8 @@ def _replay_group(args):
                     out["mism"].append({"clause": "roundtrip", "T": T, "input": v, "expected": ["ok", v], "actual": back_act})
                 if back_exp[0] == "unknown":
                     out["unknown"] += 1
+                elif '"bag"' in _json.dumps(wire_exp) and back_exp[0] == "ok" and not terms_pyeq(back_exp[1], v):
+                    pass    # a set-derived list (unspecified order) is read back by an order-preserving member: excluded (members share a wire form)
                 elif back_act[0] == "ok" and back_exp[0] == "ok" and not terms_equal(back_act[1], back_exp[1]):
                     out["mism"].append({"clause": "decode", "T": T, "input": listify(wire_exp), "expected": back_exp, "actual": back_act})
                 if len(_json.dumps(v)) > 12:
